@@ -11,6 +11,7 @@ from sa.pm import Program, FuncInfo, ClassInfo, dotted, norm, calls_in, walk_no_
 from sa.mir import extract, canon_effect, var_families, Normalizer, LinNF, canon_guard
 from sa.poly import Poly, to_poly
 from rules.formulation import method_effects, class_var_names, public
+from rules.common import stores_to_self_attr
 
 K_MODELS = ["kFlowDecomp", "kFlowDecompCycles", "kLeastAbsErrors", "kLeastAbsErrorsCycles", "kMinPathError",
             "kMinPathErrorCycles", "kPathCover", "kPathCoverCycles"]
@@ -28,12 +29,126 @@ def family_decl(prog: Program, cls: ClassInfo) -> Dict[str, Dict[str, object]]:
     return out
 
 
+def family_decls_all(prog: Program, cls: ClassInfo, fam: str):
+    """every declaration case (guard, payload) of a family in the class (several add_variables calls under different conditions)"""
+    out = []
+    for c in prog.mro(cls):
+        for f in c.methods.values():
+            for e in method_effects(prog, cls, f):
+                if e["kind"] == "add_variables" and e.get("family") == fam:
+                    for g, pl in (e.get("_cases") or [(e["_guard"], e)]):
+                        out.append((g, pl))
+    return out
+
+
 # --------------------------------------------------------------------------------------- V2
-# (class, product family) -> reason, for helper bounds that are deliberately tighter than the declared bound
-V2_EXCEPTIONS = {
-    ("kMinPathError", "self.gamma_vars"): "gamma's helper bound is w_max while the length-scaled slack may be declared up to "
-                                          "w_max*max(factors): cuts only non-optimal points (DESIGN C08), armed for unscaled factors only",
+# Quantities known to be at least 1 in every model that reaches the helpers (one line of reason each)
+GE1 = {
+    "self.slack_ub": "slack_ub >= w_max (it is w_max or ceil(w_max / factor) with factor <= 1)",
+    "self.w_max": "w_max = k * (largest flow value) with k >= 1 and integer weights wherever these helpers are used with factors; a model whose "
+                  "flows are all zero is outside the properties' preconditions",
 }
+
+
+def attr_cases(prog: Program, cls: ClassInfo, attr: str):
+    """[(guard, value)] of a self attribute stored in the constructor: one unconditional store, possibly overridden by stores under
+    `if` blocks later in the constructor.  None if the stores have another shape."""
+    from sa import boolnf as B
+    init = prog.lookup_method(cls, "__init__")
+    stores = [st for st in stores_to_self_attr(init.node, attr) if isinstance(st, ast.Assign)]
+    if not stores:
+        return None
+    stores.sort(key=lambda st: st.lineno)
+    cases = []
+    rest = B.parse(ast.parse("True", mode="eval").body) if False else None
+    covered = []
+    for st in reversed(stores):
+        tests = enclosing_tests(init.node, st)
+        g = B.mk_and([B.parse_pol(t, pol) for t, pol in tests]) if tests else None
+        if g is None:
+            ng = B.mk_and([B.mk_not(c) for c in covered]) if covered else None
+            cases.append((ng, st.value))
+            break
+        cases.append((B.mk_and([g] + [B.mk_not(c) for c in covered]), st.value))
+        covered.append(g)
+    else:
+        return None
+    return cases
+
+
+def _subst_attrs(prog, cls, e: ast.AST, guard, depth: int = 3) -> ast.AST:
+    """Replace self attributes by their constructor value under `guard` when exactly one case is compatible and it is not opaque."""
+    from sa import boolnf as B
+    for _ in range(depth):
+        changed = False
+
+        class T(ast.NodeTransformer):
+            def visit_Attribute(self, node):
+                nonlocal changed
+                d = dotted(node)
+                if d and d.startswith("self.") and d.count(".") == 1 and d not in ("self.w_max",):
+                    cs = attr_cases(prog, cls, d[5:])
+                    if cs:
+                        comp = [(g, v) for g, v in cs if g is None or B.satisfiable(B.mk_and([g, guard]))]
+                        if len(comp) == 1:
+                            v = comp[0][1]
+                            # opaque values (calls other than max / plain arithmetic) stay as the attribute atom
+                            if not any(isinstance(x, ast.Call) and dotted(x.func) not in ("max",) for x in ast.walk(v)) and not any(isinstance(x, ast.Name) and x.id not in ("self", "max") for x in ast.walk(v)):
+                                changed = True
+                                return v
+                return node
+        e = T().visit(ast.parse(norm(e), mode="eval").body)
+        if not changed:
+            break
+    return e
+
+
+def bound_dominates(prog, cls, told: str, declared: str, guard):
+    """told >= declared under `guard`?  True / False / None.  max(...) on the left: some argument dominates; attributes are replaced by
+    their constructor values; atoms in GE1 are written 1 + a' with a' >= 0, every other atom is taken as >= 0."""
+    from sa.poly import to_poly, Poly
+    try:
+        t = _subst_attrs(prog, cls, ast.parse(told, mode="eval").body, guard)
+        d = _subst_attrs(prog, cls, ast.parse(declared, mode="eval").body, guard)
+    except SyntaxError:
+        return None
+
+    def shift(p: Poly) -> Poly:
+        out = Poly.const(0)
+        for mono, c in p.t.items():
+            term = Poly.const(c)
+            for a in mono:
+                term = term * ((Poly.const(1) + Poly.atom(a + "'")) if a in GE1 else Poly.atom(a))
+            out = out + term
+        return out
+
+    def go(t_):
+        if isinstance(t_, ast.Call) and dotted(t_.func) == "max" and not t_.keywords and len(t_.args) == 1:
+            # max([a, b] + collection), max([a, b]): every listed element is dominated by the maximum
+            a0 = t_.args[0]
+            lists = [x for x in ([a0] if isinstance(a0, ast.List) else ([a0.left, a0.right] if isinstance(a0, ast.BinOp) and isinstance(a0.op, ast.Add) else []))
+                     if isinstance(x, ast.List)]
+            rs = [go(x) for l_ in lists for x in l_.elts]
+            if any(r is True for r in rs):
+                return True
+            return None
+        if isinstance(t_, ast.Call) and dotted(t_.func) == "max" and not t_.keywords and len(t_.args) >= 2:
+            rs = [go(a) for a in t_.args]
+            if any(r is True for r in rs):
+                return True
+            if all(r is False for r in rs):
+                return False
+            return None
+        diff = shift(to_poly(t_) - to_poly(d))
+        if diff.is_zero():
+            return True
+        cs = list(diff.t.values())
+        if all(c >= 0 for c in cs):
+            return True
+        if all(c <= 0 for c in cs):
+            return False
+        return None
+    return go(t)
 
 
 def _compatible_cases(decl_eff, guard):
@@ -84,16 +199,33 @@ def helper_preconditions(prog: Program, rep, RID: str, cname: str):
                     for cd in _compatible_cases(cd0, guard):
                         hub, dub = e.get("ub"), cd.get("ub")
                         hlb, dlb = e.get("lb"), cd.get("lb")
-                        exc = V2_EXCEPTIONS.get((cname, prod))
-                        okub = hub == dub or (isinstance(hub, str) and hub.startswith("max(") and str(dub) in hub)
-                        if not okub and exc and "scaled" in cf:
-                            rep.ok(RID, key + f":ub:{cf}", "tabled exception: " + exc, loc, nontrivial=False)
-                        elif okub:
-                            rep.ok(RID, key + f":ub:{cf}", f"helper ub `{hub}` = declared ub of {cf}", loc,
-                                   sample={"helper": k, "factor": cf, "ub": hub})
+                        okub = True if hub == dub else bound_dominates(prog, cls, str(hub), str(dub), guard)
+                        if okub is True:
+                            rep.ok(RID, key + f":ub:{cf}", f"helper ub `{hub}` >= declared ub `{dub}` of {cf}", loc,
+                                   sample={"helper": k, "factor": cf, "ub": hub, "declared": dub})
+                        elif okub is False:
+                            rep.violation(RID, key + f":ub:{cf}", f"helper is told ub = `{hub}` but `{cf}` is declared with ub = `{dub}`, which is larger: values of the "
+                                          "continuous factor above the helper's bound are linearised wrongly (the product is cut off)", loc)
                         else:
-                            rep.violation(RID, key + f":ub:{cf}", f"helper is told ub = `{hub}` but `{cf}` is declared with ub = `{dub}`: values of the "
-                                          "continuous factor between the two are linearised wrongly (product cut off or unbounded)", loc)
+                            raise AnalysisError(f"{key}: cannot compare the helper's ub `{hub}` with the declared ub `{dub}` of {cf}")
+                        # the integer helper sizes the bit expansion of the integer factor from the same ub
+                        if k.startswith("add_integer"):
+                            from sa import boolnf as _B
+                            for d in [pl for g_, pl in family_decls_all(prog, cls, fam) if _B.satisfiable(_B.mk_and([g_, guard]))]:
+                                iub = d.get("ub")
+                                sized = e.get("integer_ub") if e.get("integer_ub") not in (None, "None") else hub
+                                r = True if iub == sized else bound_dominates(prog, cls, str(sized), str(iub), guard)
+                                if r is None and sized == "self.w_max" and "self.edge_upper_bounds[" in str(iub):
+                                    # reviewed fact: every repetition cap a flow model passes is a flow value (own flow, largest reachable flow) or w_max
+                                    # itself, hence <= w_max (providers checked by C04.R5)
+                                    r = True
+                                if r is True:
+                                    rep.ok(RID, key + f":bits:{fam}", f"bit expansion sized from `{sized}` >= declared ub `{iub}` of the integer factor {fam}", loc)
+                                elif r is False:
+                                    rep.violation(RID, key + f":bits:{fam}", f"the bit expansion of `{fam}` is sized from `{sized}`, which is below the "
+                                                  f"declared ub `{iub}` of that factor: larger multiplicities cannot be represented (the model is cut)", loc)
+                                else:
+                                    raise AnalysisError(f"{key}: cannot compare `{sized}` (sizing the bit expansion) with the declared ub `{iub}` of the integer factor {fam}")
                         if hlb == dlb or (hlb == "0" and dlb in ("0", "min(self.path_length_factors)")):
                             rep.ok(RID, key + f":lb:{cf}", f"helper lb `{hlb}` vs declared lb `{dlb}`", loc, nontrivial=False)
                         else:
